@@ -3,6 +3,11 @@
 import json
 claimed = {
  "C01": ("one inductive production step (and 2-step recoveries, and the genesis step through the real NewManager) of the real publishBlockInternal, symbolically executed from go/ssa from an arbitrary invariant node state with arbitrary sequencer/executor responses; z3 decides every path", "store = map double (contract of C14), crypto/hash as uninterpreted functions with the standard axioms, batches <= 2 txs; see evidence bounds"),
+ "C03": ("every admission gate for headers and signed data (DA ingress, P2P filter, the light-node Validate+Verify contract, execValidate) executed symbolically on an arbitrary third-party item: accepted implies the item carries the genesis proposer's key and verifies under it", "crypto as uninterpreted functions without unforgeability; go-header/libp2p replaced by their call contract; two open known findings on the light-node gate"),
+ "C06": ("the real submitToDA / submitHeadersToDA / submitDataToDA / createSignedDataToSubmit / pendingBase executed symbolically over scripted DA fault sequences, partial acceptance, restarts and a fresh chain of any small initial height; watermark soundness, order, blob identity and signature checked on every path", "<=3 pending items, <=3 DA answers per call; store/DA doubles"),
+ "C07": ("one wake-up of the real DAIncluderLoop from an arbitrary mark/height state, with executor and store faults, plus the restart reload; soundness, monotonicity, order of finalisation, durability and one-step eventuality asserted on every path", "<=2 (3) blocks per step; marks assumed to exist exactly for blobs on the DA layer; two open known findings (equal tx lists alias)"),
+ "C08": ("the refusal test for all 64-bit limits/heights/watermarks, and the drain lemma (accepting DA => production resumes) for every mix of up to 3 pending blocks incl. all-empty, on the real code", "<=3 pending blocks; accepting DA double"),
+ "C09": ("the real RetrieveLoop driven over scripted DA heights with every fetch outcome and blob kind: cursor never skips, leaves a height only after success/not-found, retries every defined error, hands exactly the genuine blobs to sync", "2 DA heights, <=2 blobs per height, protobuf runtime trusted"),
  "C12": ("bounded symbolic execution of the real encoders/decoders, hashing and the batch-cursor codec from go/ssa, differential against a frozen reference encoder; z3 decides every path within the stated bounds", "bounds and summaries are listed in the evidence file; gob cache persistence is outside the claim"),
  "C14": ("all histories of up to 2 (thorough: 3) arbitrary mutators with reopen/crash points on the real DefaultStore over a datastore double, every reader compared with a map model; symbolic execution of the real code from go/ssa, z3 decides every path", "ds.Batching contract assumed (atomic batch, durable put); heights used as keys picked from {1,10,2^40}; badger outside"),
  "C16": ("client-side size filter of the real API.SubmitWithOptions executed symbolically against a reference model for all blob lists within the bound and every 64-bit limit", "only the size-filter clause is claimed: wire error identity and JSON payload equality are outside reach (go-jsonrpc/encoding/json are reflection driven)"),
